@@ -15,7 +15,7 @@ RULE = ("seeded district-heating loops (1-8 consumers in all five specification 
 ASSUMPTIONS = ["heat capacities come from the public Fluid API"]
 CONFIG = {"quick": {"shards": 8, "timeout_s": 600, "cases": 320},
           "thorough": {"shards": 16, "timeout_s": 3000, "cases": 8000}}
-REQUIRED_COUNTERS = ["transient_steps_monitored", "exchanger_duties", "exchanger_duties_negative", "exchanger_duties_reverse_flow", "consumer_duties_MF_DT_sequential",
+REQUIRED_COUNTERS = ["runs_with_thermally_unsupplied_part", "transient_steps_monitored", "exchanger_duties", "exchanger_duties_negative", "exchanger_duties_reverse_flow", "consumer_duties_MF_DT_sequential",
                      "consumer_duties_MF_TR_sequential", "consumer_duties_QE_MF_sequential",
                      "consumer_duties_QE_DT_bidirectional", "consumer_duties_QE_TR_bidirectional",
                      "consumer_setpoints_checked", "loop_closures"]
@@ -43,6 +43,8 @@ def make(case):
     for e in spec["elements"]:
         if e["kind"] == "heat_exchanger" and rng.random() < 0.4:
             e["from_junction"], e["to_junction"] = e["to_junction"], e["from_junction"]
+    if rng.random() < 0.25:
+        netgen.add_cold_line(spec, rng)      # hydraulically supplied, no temperature source: no part of the thermal calculation
     opts = {"use_numba": case["numba"], "iter": 200, "tol_p": 1e-10, "tol_m": 1e-10, "tol_res": 1e-9, "tol_T": 1e-9}
     return spec, opts
 
@@ -80,6 +82,8 @@ def run_case(case, ctx):
     rec = {"nontrivial": False}
     if outcome == "ok":
         mon_c11(net, obs, opts, case["mode"])
+        if any(j["name"] == "c0" for j in spec["junctions"]):
+            obs.count("runs_with_thermally_unsupplied_part")
         n = sum(v for k, v in obs.counters.items() if k.startswith(("exchanger_duties", "consumer_duties")))
         rec["nontrivial"] = n >= 2
         if rec["nontrivial"]:
